@@ -135,6 +135,10 @@ def atom_thunks():
         add(f"has_length {n}", lambda n=n: has_length_p(n))
     for pat in ("^foo", "^bar", "a+"):
         add(f"regex {pat}", lambda pat=pat: regex_p(pat))
+    # flags that change what a class escape matches (ASCII): same pattern text, different predicate
+    add("regex ^\\w+$", lambda: RegexPredicate("^\\w+$"))
+    add("regex ^\\w+$ ASCII", lambda: RegexPredicate("^\\w+$", re.ASCII))
+    add("regex ^\\w+$ ASCII|IGNORECASE", lambda: RegexPredicate("^\\w+$", re.ASCII | re.IGNORECASE))
     add("regex ^foo IGNORECASE", lambda: RegexPredicate("^foo", re.IGNORECASE))
     # compiled patterns are accepted too (re.compile hands them back): equality is on what was passed in
     add("regex compiled ^foo", lambda: RegexPredicate(re.compile("^foo")))
